@@ -627,5 +627,5 @@ wf!(c22_q_n1_hs_refuse_refused_wf, RefuseReason, 16, 6, 10, RefuseReason::Refuse
 wf!(c22_q_n1_lmn_request_nonblocking_wf, lmn::Message, 16, 6, 10, lmn::Message::RequestMessagesNonBlocking, noeq_lmn);
 wf!(c22_q_n1_lmn_reply_nonblocking0_wf, lmn::Message, 16, 8, 10, lmn::Message::ReplyMessagesNonBlocking(vec![], kani::any()), noeq_lmn);
 wf!(c22_q_n1_lmn_request_blocking_wf, lmn::Message, 16, 6, 10, lmn::Message::RequestMessagesBlocking, noeq_lmn);
-wf!(c22_q_n1_lmn_reply_blocking0_wf, lmn::Message, 16, 8, 10, lmn::Message::ReplyMessagesBlocking(vec![]), noeq_lmn);
+wf!(c22_x_n1_lmn_reply_blocking0_wf, lmn::Message, 16, 8, 10, lmn::Message::ReplyMessagesBlocking(vec![]), noeq_lmn);
 wf!(c22_q_n1_lmn_client_done_wf, lmn::Message, 16, 6, 10, lmn::Message::ClientDone, noeq_lmn);
